@@ -81,13 +81,27 @@ def sync_harness_gosum():
         shutil.copyfile(src, dst)
 
 
+def modfile_args():
+    """harness/go.mod points at /repo; when HOP_REPO names another tree (development worktrees
+    only) an alternative go.mod is written under .build and selected with -modfile"""
+    if os.path.realpath(REPO) == "/repo":
+        return []
+    os.makedirs(BUILD, exist_ok=True)
+    alt = os.path.join(BUILD, "go.alt.mod")
+    src = open(os.path.join(HARNESS, "go.mod")).read().replace("=> /repo", "=> " + os.path.realpath(REPO))
+    if not os.path.exists(alt) or open(alt).read() != src:
+        open(alt, "w").write(src)
+    shutil.copyfile(os.path.join(REPO, "go.sum"), os.path.join(BUILD, "go.alt.sum"))
+    return ["-modfile=" + alt]
+
+
 def regenerate():
     """Run the translator on /repo's working tree; replace Generated/* only where content
     changed (so lake re-elaborates only what depends on changed facts)."""
     tmp = os.path.join(BUILD, "gen.tmp")
     shutil.rmtree(tmp, ignore_errors=True)
     os.makedirs(tmp)
-    rc, out = sh(["go", "run", "./extract", "-repo", REPO, "-out", tmp,
+    rc, out = sh(["go", "run"] + modfile_args() + ["./extract", "-repo", REPO, "-out", tmp,
                   "-facts", os.path.join(BUILD, "facts.json")], cwd=HARNESS, env=goenv())
     if rc != 0:
         return False, out
@@ -243,7 +257,7 @@ def build_hv(prop, tags="verif", suffix=""):
     """build the property's own harness binary from /repo's current working tree"""
     sync_harness_gosum()
     os.makedirs(BUILD, exist_ok=True)
-    rc, out = sh(["go", "build", "-tags", tags, "-o", hv_path(prop) + suffix, "./cmd/" + prop.lower()],
+    rc, out = sh(["go", "build"] + modfile_args() + ["-tags", tags, "-o", hv_path(prop) + suffix, "./cmd/" + prop.lower()],
                  cwd=HARNESS, env=goenv(), timeout=1800)
     return rc == 0, out
 
@@ -336,6 +350,7 @@ def first_diff(a, b):
 
 
 def load_known():
+    """KNOWN_FINDINGS.jsonl (committed, never written at run time)"""
     res = []
     if os.path.exists(KNOWN):
         for l in open(KNOWN):
